@@ -497,7 +497,7 @@ def r7_array_length_recorded(cx):
                     n += 1
 
 
-def r8_width_covers(cx):
+def r8_width_covers(cx, rule="R8"):
     F = cx.F
     f = F.one(**ref.STRUCTS["IndexedValueStoreTail"][0])
     b = F.body(f)
@@ -511,7 +511,15 @@ def r8_width_covers(cx):
         ok = ok and ("field", "size") in b.origins(nb[0][1]["args"][0])
         first = [t for _, t in ws if ("field", "size") in b.origins(t["args"][1])]
         ok = ok and len(first) >= 1
-    cx.ob("R8", "R8/IndexedValueStore.serialize_tail", ok, f, "offset width = needed_bytes(total data size); data size and cumulative offsets (<= data size) are written with it")
+    cx.ob(rule, rule + "/IndexedValueStore.serialize_tail", ok, f, "offset width = needed_bytes(total data size); data size and cumulative offsets (<= data size) are written with it")
+    if len(nb) == 1:
+        # the data size is itself written with that width: the width is computed from the total and from nothing smaller
+        # (the start of the last value, the largest offset ... are all <= the total but may need fewer bytes)
+        o = b.origins(nb[0][1]["args"][0])
+        other_calls = sorted({callee_str(b.term(x[1])).split("::")[-1] for x in o if x[0] == "call" and not call_is(b.term(x[1]), r"into_u64$", r"Size::", r"::size$", r"From<.*>>::from$", r"Into<.*>>::into$", r"Deref>::deref$")})
+        other_fields = sorted({x[1] for x in o if x[0] == "field"} - {"size", "0"})
+        cx.ob(rule, rule + "/IndexedValueStore.serialize_tail/width-from-the-total-only", not other_calls and not other_fields, f,
+              "the argument of needed_bytes is the total data size itself (other calls on the way: %s, other fields: %s)" % (other_calls, other_fields), ln=nb[0][1].get("ln"))
     # value-id width: key_size = needed_bytes(count) for indexed, needed_bytes(size) for plain
     for ty, fld in (("IndexedValueStore", "sorted_indirect"), ("PlainValueStore", None)):
         g = F.one(impl_self=ty, item="key_size", closure=False)
@@ -522,7 +530,7 @@ def r8_width_covers(cx):
             ok = ("field", fld) in gb.origins(nb[0][1]["args"][0])
         elif ok:
             ok = gb.derives_from_call(nb[0][1]["args"][0], r"PlainValueStore::size$")
-        cx.ob("R8", "R8/%s.key_size" % ty, ok, g, "value-id width = needed_bytes(%s)" % ("number of values (ids are ranks)" if fld else "data size (ids are byte offsets)"))
+        cx.ob(rule, rule + "/%s.key_size" % ty, ok, g, "value-id width = needed_bytes(%s)" % ("number of values (ids are ranks)" if fld else "data size (ids are byte offsets)"))
 
 
 def r10_reader_offsets(cx):
@@ -741,7 +749,43 @@ def r13_compare_ties_are_equal(cx):
           "when every sort key compares Equal the comparison returns Equal (values returned on those paths: %s)" % sorted(set(rets)))
 
 
+def r14_sizes_are_compared_before_they_are_narrowed(cx):
+    """'byte arrays of any length': lengths, counts and offsets travel in their own wide types (Size, ASize, Count..)
+    and are taken out with `into_usize()/into_u64()`. Narrowing such a value to 8 or 16 bits *before* it is clamped or
+    compared keeps its low byte only (a 256-byte array looks empty): in the reader, a narrowing cast never takes the
+    result of `into_usize()/into_u64()` directly -- it takes the result of a `min`, a masked value, or a value a
+    dominating comparison has bounded."""
+    F = cx.F
+    W = {"u8": 1, "u16": 2, "u32": 4, "u64": 8, "usize": 8}
+    n = 0
+    for f in F.live_fns:
+        if "blocks" not in f or not re.search(r"reader::directory_pack::|reader::content_pack::", f["name"]):
+            continue
+        b = None
+        for i, blk in enumerate(f["blocks"]):
+            if blk.get("cleanup"):
+                continue
+            for st in blk["s"]:
+                rv = st.get("rv") or {}
+                if not (st["k"] == "assign" and rv.get("k") == "cast" and rv.get("ck") == "IntToInt"):
+                    continue
+                frm, to = rv.get("from"), rv.get("ty")
+                if frm not in W or to not in ("u8", "u16") or W[to] >= W[frm]:
+                    continue
+                n += 1
+                b = b or F.body(f)
+                direct = [x for x in b.origins(rv["op"], through_calls=False) if x[0] == "call" and call_is(b.term(x[1]), r"::into_(usize|u64|u32)$")]
+                if not direct:
+                    continue
+                srcs = {("call", x[1]) for x in direct}
+                bound = min((c for _, c in upper_bound_guards(b, i, srcs)), default=None)
+                cx.ob("R14", "R14/%s/narrowed-after-comparison" % re.sub(r"<.*?>", "", f["name"]).split("::")[-1], bound is not None and bound < (1 << (8 * W[to])), f,
+                      "a size taken out with into_usize()/into_u64() is narrowed to %s at line %s only under a bound (found: %s)" % (to, st.get("ln"), bound), ln=st.get("ln"))
+    cx.ob("R14", "R14/narrowing-casts-in-the-reader", n >= 10, "(reader)", "%d narrowing casts to u8/u16 in the directory and content pack readers examined" % n)
+
+
 RULES = [
+    ("R14", r14_sizes_are_compared_before_they_are_narrowed, 1),
     ("R1", r1_signed_width, 3),
     ("R1", r1b_fold_does_not_wrap, 1),
     ("R2", r2_tail_size, 4),
